@@ -394,6 +394,17 @@ def drive(mem: Member, tol: float, mode: str, rng, budget: int, stop_at_done=Tru
     return out
 
 
+def zero_refined_intervals(L) -> int:
+    """intervals refined at least once (depth_complete >= 1) on which every node value is exactly 0.0"""
+    n, todo = 0, [L.first_ival]
+    while todo:
+        iv = todo.pop()
+        todo.extend(iv.children)
+        if iv.depth_complete and iv.parent is not None and hasattr(iv, "fx") and not np.any(iv.fx):
+            n += 1
+    return n
+
+
 def done_criterion(L) -> bool:
     """The documented stopping rule, from public attributes: the error is 0, or below the
     RELATIVE tolerance, or only the removed intervals keep it above, or nothing is left."""
